@@ -5,12 +5,12 @@ LEVEL = "proof"
 
 DMV = "src/ompl/base/src/DiscreteMotionValidator.cpp"
 MV_RULES = [
-    (r"stateSpace_->validSegmentCount\(", "validSegmentCount(", 1),
-    (r"stateSpace_->interpolate\(", "interpolate(", 1),
-    (r"si_->isValid\(", "isValid(", 1),
-    (r"si_->allocState\(\)", "allocState()", 1),
-    (r"si_->freeState\(", "freeState(", 1),
-    (r"\(double\)\s*(\((?:[^()]|\([^()]*\))*\)|\w+)\s*/\s*\(double\)\s*(\w+)", r"FDIV(\1, \2)", 1),
+    (r"stateSpace_->validSegmentCount\(", "validSegmentCount(", 0),
+    (r"stateSpace_->interpolate\(", "interpolate(", 0),
+    (r"si_->isValid\(", "isValid(", 0),
+    (r"si_->allocState\(\)", "allocState()", 0),
+    (r"si_->freeState\(", "freeState(", 0),
+    (r"\(double\)\s*(\((?:[^()]|\([^()]*\))*\)|\w+)\s*/\s*\(double\)\s*(\w+)", r"FDIV(\1, \2)", 0),
     (r"\blastValid\.", "lastValid->", 0),
 ]
 
@@ -45,12 +45,12 @@ __CPROVER_decreases(nd - j)
 ]
 
 BISECT_RULES = MV_RULES + [
-    (r"std::queue<std::pair<int, int>> pos;", "", 1),
-    (r"\bpos\.emplace\(", "pos_emplace(", 3),
-    (r"\bpos\.empty\(\)", "pos_empty()", 1),
-    (r"\bpos\.front\(\)", "pos_front()", 1),
-    (r"\bpos\.pop\(\)", "pos_pop()", 1),
-    (r"std::pair<int, int> x", "pair_int_int x", 1),
+    (r"std::queue<std::pair<int, int>> pos;", "", 0),
+    (r"\bpos\.emplace\(", "pos_emplace(", 0),
+    (r"\bpos\.empty\(\)", "pos_empty()", 0),
+    (r"\bpos\.front\(\)", "pos_front()", 0),
+    (r"\bpos\.pop\(\)", "pos_pop()", 0),
+    (r"std::pair<int, int> x", "pair_int_int x", 0),
 ]
 BISECT_LOOP = """
 __CPROVER_assigns(result, checked_G, checks_at_G, any_invalid, last_invalid_idx, frac_num, frac_den, frac_val, Q_n, Q_cov, Q_wf, Q_len, Q_front_covers, Q_front_val, *test)
@@ -83,14 +83,14 @@ def _curve_rules(base):
     return [
         # interpolate(s1, s2, t, firstTime, path, out) -> interpolate(s1, s2, t, out): the cached curve is an
         # optimisation of interpolate(s1,s2,t,out) (abstraction, stated in evidence)
-        (r"stateSpace_->interpolate\(s1, s2, ([^,;]+), firstTime, path, ", r"stateSpace_->interpolate(s1, s2, \1, ", 1),
-        (r"(?:DubinsStateSpace::DubinsPath|ReedsSheppStateSpace::ReedsSheppPath) path;", "", 1),
+        (r"stateSpace_->interpolate\(s1, s2, ([^,;]+), firstTime, path, ", r"stateSpace_->interpolate(s1, s2, \1, ", 0),
+        (r"(?:DubinsStateSpace::DubinsPath|ReedsSheppStateSpace::ReedsSheppPath) path;", "", 0),
     ] + base
 
 def _d3_rules(base):
     return [
-        (r"stateSpace_->interpolate\(s1, s2, ([^,;]+), \*path, ", r"stateSpace_->interpolate(s1, s2, \1, ", 1),
-        (r"auto path = stateSpace_->getPath\(s1, s2\);", "bool path = getPath(s1, s2);", 1),
+        (r"stateSpace_->interpolate\(s1, s2, ([^,;]+), \*path, ", r"stateSpace_->interpolate(s1, s2, \1, ", 0),
+        (r"auto path = stateSpace_->getPath\(s1, s2\);", "bool path = getPath(s1, s2);", 0),
     ] + base
 
 CURVES = [
@@ -121,9 +121,9 @@ for cname, cfile, csig, crules, cdef, cls in CURVES:
 
 SI = "src/ompl/base/src/SpaceInformation.cpp"
 SI_RULES = [
-    (r"assert\(states\.size\(\) >= count\);", "__CPROVER_assert(states_size >= count, \"states.size() >= count\");", 1),
+    (r"assert\(states\.size\(\) >= count\);", "__CPROVER_assert(states_size >= count, \"states.size() >= count\");", 0),
     (r"isValid\(states\.front\(\)\)", "isValidIdx(0)", 0),
-    (r"isValid\(states\[([^\]]+)\]\)", r"isValidIdx(\1)", 1),
+    (r"isValid\(states\[([^\]]+)\]\)", r"isValidIdx(\1)", 0),
     (r"\bfirstInvalidStateIndex\b", "(*firstInvalidStateIndex)", 0),
 ]
 UNITS.append(dict(
@@ -151,13 +151,13 @@ UNITS.append(dict(
     sources=[dict(name="si_checkMotion", file=SI,
                   sig=r"bool\s+ompl::base::SpaceInformation::checkMotion\s*\(const std::vector<State \*> &states, unsigned int count\)\s*const",
                   rules=SI_RULES + [
-                      (r"std::queue<std::pair<int, int>> pos;", "", 1),
-                      (r"\bpos\.emplace\(", "pos_emplace(", 3),
-                      (r"\bpos\.empty\(\)", "pos_empty()", 1),
-                      (r"\bpos\.front\(\)", "pos_front()", 1),
-                      (r"\bpos\.pop\(\)", "pos_pop()", 1),
-                      (r"std::pair<int, int> x", "pair_int_int x", 1),
-                      (r"pos_emplace\(0, count - 1\)", "pos_emplace(0, (int)(count - 1))", 1),
+                      (r"std::queue<std::pair<int, int>> pos;", "", 0),
+                      (r"\bpos\.emplace\(", "pos_emplace(", 0),
+                      (r"\bpos\.empty\(\)", "pos_empty()", 0),
+                      (r"\bpos\.front\(\)", "pos_front()", 0),
+                      (r"\bpos\.pop\(\)", "pos_pop()", 0),
+                      (r"std::pair<int, int> x", "pair_int_int x", 0),
+                      (r"pos_emplace\(0, count - 1\)", "pos_emplace(0, (int)(count - 1))", 0),
                   ],
                   loops={1: """
 __CPROVER_assigns(checked_G, checks_at_G, any_invalid, last_invalid_idx, Q_n, Q_cov, Q_wf, Q_len, Q_front_covers, Q_front_val)
